@@ -76,9 +76,21 @@ CHECKS = {
                 "memory safety is not modelled.",
         "technique": "Coq proof over translator-regenerated accessor definitions + differential correspondence (mutable / parallel variants)",
     },
+    "C18": {
+        "text": "The range checks of validate_pdb are regenerated from the source on every run (T4) and proved, by computation on the regenerated "
+                "table, to be exactly the documented PDB column ranges: every validated field once, upper side and - where the column holds a sign - "
+                "lower side (C18_thresholds_are_column_ranges). Theorems for every structure: one diagnostic per out-of-range value and none otherwise; "
+                "'No Atoms' exactly when there is no atom; model-size diagnostics exactly for later models whose (all, then non-hetero) atom count differs; "
+                "correspondence diagnostics exactly at positions whose atoms differ in serial, name, element, charge or tensor presence. validate / "
+                "validate_models are hand-written mirrors tied by correspondence at, inside and outside every bound.",
+        "design_ref": "DESIGN.md section 6 C18",
+        "note": "Trusted: Coq kernel, T4 translator (fails closed on any statement outside its fragment), extraction, harness. The binary64 value of each "
+                "decimal bound is taken from Rust's parser; diagnostics compared as multisets of (level, short description).",
+        "technique": "Coq proof over a translator-regenerated rule table + differential correspondence at the boundaries",
+    },
 }
 
 NOT_APPLICABLE = [
     {"property_id": p, "reason": PENDING}
-    for p in ["C01", "C02", "C03", "C04", "C05", "C06", "C13", "C14", "C15", "C16", "C17", "C18"]
+    for p in ["C01", "C02", "C03", "C04", "C05", "C06", "C13", "C14", "C15", "C16", "C17"]
 ]
